@@ -1,8 +1,12 @@
 #!/bin/sh
 # Run the thorough tier of the given properties one after another (used with `vp run` as a background sweep).
-# VERIF_SEED is honoured.
+# VERIF_SEED is honoured. Prints the real exit status of every check.
 for id in "$@"; do
   echo "=== $id $(date +%T) seed=${VERIF_SEED:-0}"
-  /usr/bin/time -f "$id wall %es maxrss %MkB" bin/check $id thorough 2>&1 | grep -E "^C[0-9]+ \[|VIOLATION|INCONCL|KNOWN-FINDING|wall|^FAIL" | cut -c1-300
-  echo "exit=$?"
+  out=$(mktemp)
+  /usr/bin/time -f "$id wall %es maxrss %MkB" bin/check $id thorough > $out 2>&1
+  rc=$?
+  grep -E "^C[0-9]+ \[|VIOLATION|INCONCL|KNOWN-FINDING|wall|^FAIL" $out | cut -c1-300
+  rm -f $out
+  echo "exit=$rc"
 done
